@@ -21,8 +21,8 @@ TIER = 'quick'
 LEVEL = 'fault_enumeration'
 EVAL_PROBE = 'faulted-runs'
 ENGINE = 'fault'
-BUDGET = {'quick': 90, 'thorough': 5000}
-WALL = {'quick': 50, 'thorough': 1800}
+BUDGET = {'quick': 160, 'thorough': 5000}
+WALL = {'quick': 90, 'thorough': 1800}
 RULE = ('scenarios: trash-put of 1-2 entries with home, .Trash/$uid and .Trash-$uid candidates, first use and collisions; from the fault-free '
         'trace: one single-shot fault per op x applicable errno (all errnos for mutating ops; for reads one sampled errno in the quick tier, all in the thorough tier), persistent conditions '
         '(volume read-only / full / over quota, directory not writable, I/O errors below a directory, immutable entry) and 25 (quick) / 120 (thorough) adaptive pairs of '
